@@ -1905,8 +1905,31 @@ func (s *SweepingProvider) batchReprovide(prefix bitstr.Key) {
 	}
 
 	// Remove all keys matching coveredPrefix from provide queue. No need to
-	// provide them anymore since they are about to be reprovided.
-	s.provideQueue.DequeueMatching(prefix)
+	// provide them anymore since they are about to be reprovided. Keys that
+	// are not among the keys being reprovided (given to ProvideOnce, or added
+	// since the keys were loaded above) stay in the provide queue.
+	if queued := s.provideQueue.DequeueMatching(prefix); len(queued) > 0 {
+		reprovided := make(map[string]struct{}, len(keys))
+		for _, k := range keys {
+			reprovided[string(k)] = struct{}{}
+		}
+		var pending []mh.Multihash
+		for _, k := range queued {
+			if _, ok := reprovided[string(k)]; !ok {
+				pending = append(pending, k)
+			}
+		}
+		if len(pending) > 0 {
+			s.provideQueue.Enqueue(prefix, pending...)
+			// Make sure the provide loop is running.
+			s.wgLk.RLock()
+			if !s.closed() {
+				s.wg.Add(1)
+				go s.provideLoop()
+			}
+			s.wgLk.RUnlock()
+		}
+	}
 	// Remove covered prefix from the reprovide queue, so since we are about the
 	// reprovide the region.
 	s.reprovideQueue.Remove(prefix)
